@@ -9,7 +9,7 @@ sys.path.insert(0, os.path.dirname(os.path.dirname(os.path.abspath(__file__))))
 from lib.check import main  # noqa: E402
 from lib.tlc import MachineryError  # noqa: E402
 
-DEVS = ["Dev_C07_F16Float8Act", "Dev_C07_Int8PackCrash", "Dev_C07_StridedView"]
+DEVS = ["Dev_C07_F16Float8Act", "Dev_C07_Int8PackCrash", "Dev_C07_StridedView", "Dev_C07_IntMMK1"]
 INV = ["RouteTotal", "IntMMOnlyInt8Pair", "PackOnlyBf16", "LowBitFallsBack", "NoIntermediateOverflow"]
 
 
@@ -31,7 +31,8 @@ def body(c):
     total = len(cases)
     if c.quick:
         rnd = random.Random(c.seed)
-        cases = rnd.sample(cases, 700)
+        k1 = [x for x in cases if x["cfg"]["K"] == 1]
+        cases = rnd.sample(cases, 700) + rnd.sample(k1, min(len(k1), 60))
     tr = c.harness("h_mm.py", {"cases": cases}, timeout=3000)["traces"]
     consts = {"Sizes": "{}", "Dev_C07_F16Float8": "FALSE"}
     consts.update({d: ("TRUE" if devs[d] else "FALSE") for d in DEVS})
